@@ -47,7 +47,7 @@ STORES = {
     "B": {"kind": "local", "state": False, "hash": "md5"},
     "G": {"kind": "generic", "state": False, "hash": "md5"},
     "R": {"kind": "remote", "state": False, "hash": "md5"},
-    "L": {"kind": "local", "state": False, "hash": "md5-dos2unix"},
+    "L": {"kind": "local", "state": True, "hash": "md5-dos2unix"},  # one State per repo, shared
 }
 
 
